@@ -342,6 +342,10 @@ class SessRef:
                 # objects already evicted (detached / transient) are no longer the
                 # session's business: no transition, no event
             elif o.state == D and n in scope.deleted:
+                if self.holder(o.cls, o.key) is not None:
+                    # while this object was deleted another instance was attached under
+                    # its identity (make_transient_to_detached + add): two claimants, undocumented
+                    pr.undefined = True
                 o.state, o.wasdel = P, False
                 pr.ev(n, D, P)
             elif o.state == P and o.marked:
@@ -442,6 +446,8 @@ class SessRef:
         o.vals[attr] = value
         o.dirty.add(attr)
         o.modflag = True
+
+    op_set_nf = op_set
 
     def op_flush(self, pr):
         self.flush(pr)
